@@ -348,7 +348,11 @@ where
                     Action::Accept => {
                         only_reduces = false;
                     }
-                    Action::Error => (),
+                    Action::Error => {
+                        // A %nonassoc resolution can turn a previously populated entry back
+                        // into an error: such a token no longer has an action in this state.
+                        state_actions.set(off, false);
+                    }
                 }
             }
 
